@@ -313,6 +313,18 @@ def one_history(ctx, gid, n_steps, mon):
             out = type(e).__name__
         if desc is None:
             continue
+        # what a *conversion* returns belongs to the caller ("results are new objects"): a hostile caller
+        # scribbles on it; no pool member may notice (a memoised result handed out twice would)
+        if out == "ok" and desc[0] in ("GetValues(unit)", "Quantity.Convert", "UnitDatabase.Convert", "UnitDatabase.Convert(exps)", "Quantity.ConvertScalarValue") and res is not None:
+            own = a.GetAbstractValue() if hasattr(a, "GetAbstractValue") else None
+            if res is not own:
+                try:
+                    if isinstance(res, list):
+                        res[:] = [12345.0] * len(res)
+                    elif isinstance(res, np.ndarray) and res.dtype.kind == "f" and res.ndim:
+                        res.fill(12345.0)
+                except Exception:
+                    pass
         ctx.ev()
         outcomes[out] = outcomes.get(out, 0) + 1
         ctx.nt((desc, out == "ok"))
@@ -328,6 +340,65 @@ def one_history(ctx, gid, n_steps, mon):
         ctx.count("step outcome %s" % o, n)
     ctx.count("pool snapshot comparisons", P.n_checks)
     return P
+
+
+def validation_with_limits(ctx, r, n):
+    """Validation is an operation too: on categories that *have* limits (the shipped database has none), with NaN
+    elements (skipped by design), in every container kind - validating, again and again, leaves the container
+    (also the caller's) exactly as it was. Snapshots compare bytes / reprs, so NaN is no obstacle here."""
+    import numpy as np
+    from barril.basic.fraction import FractionValue
+    from barril.units import Array, FixedArray, FractionScalar, Scalar
+
+    nan = float("nan")
+    db = table.build("posc")
+    with table.pushed(db):
+        db.AddCategory("c13 len", "length", default_unit="m", min_value=0.0, max_value=100.0)
+        db.AddCategory("c13 temp", "temperature", default_unit="degC", min_value=-50.0)
+        db.AddCategory("c13 time", "time", default_unit="s", max_value=1000.0, is_max_exclusive=True, default_value=1.0)
+        for _ in range(n):
+            cat, units = r.choice([("c13 len", ["m", "cm", "km"]), ("c13 temp", ["degC", "K", "degF"]), ("c13 time", ["s", "min", "h"])])
+            u = r.choice(units)
+            L = r.randint(1, 5)
+            vals = [r.choice([1.0, 2.5, 50.0, -3.0, 1e4, nan, nan, 0.0]) for _ in range(L)]
+            kind = r.choice(["list", "tuple", "nd", "nd32", "ndint", "lot"])
+            if kind == "list":
+                cont = list(vals)
+            elif kind == "tuple":
+                cont = tuple(vals)
+            elif kind == "nd":
+                cont = np.array(vals, dtype=float)
+            elif kind == "nd32":
+                cont = np.array(vals, dtype=np.float32)
+            elif kind == "ndint":
+                cont = np.array([0 if v != v else int(v) for v in vals], dtype=np.int64)
+            else:
+                cont = [tuple(0.0 if v != v else v for v in vals), (1.0, 2.0)]
+            objs = [("Array", Array(cat, cont, u))]
+            if L >= 2 and kind != "lot":
+                objs.append(("FixedArray", FixedArray(L, cat, cont, u)))
+            objs.append(("Scalar", Scalar(cat, vals[0], u)))
+            if vals[0] == vals[0]:
+                objs.append(("FractionScalar", FractionScalar(cat, FractionValue(int(vals[0]) if abs(vals[0]) < 1e6 else 1, (7, 4)), u)))
+            objs.append(("Array.CreateCopy()", objs[0][1].CreateCopy()))
+            case = {"category": cat, "unit": u, "values": [repr(v) for v in vals], "container": kind}
+            before = [(nm, snapshot.value_object(o)) for nm, o in objs] + [("caller container", snapshot.container(cont))]
+            for nm, o in objs:
+                for call in ("IsValid", "CheckValidity", "IsValid", "GetFormatted", "str"):
+                    ctx.ev()
+                    try:
+                        if call == "str":
+                            str(o)
+                        elif hasattr(o, call):
+                            getattr(o, call)()
+                    except Exception:
+                        pass
+                    after = [(n2, snapshot.value_object(o2)) for n2, o2 in objs] + [("caller container", snapshot.container(cont))]
+                    if after != before:
+                        changed = [a[0] for a, b in zip(after, before) if a != b]
+                        ctx.violation("validation-or-formatting-changed-an-operand:%s.%s" % (nm.split(".")[0], call), dict(case, changed=changed, before=repr(before)[:300], after=repr(after)[:300]), replay=None)
+                        before = after
+            ctx.nt(("limits", cat, kind, any(v != v for v in vals)))
 
 
 def _label(P, o):
@@ -353,7 +424,7 @@ def run(ctx):
     ctx.assumptions = [
         "explicit setters (SetNumber, SetFraction, set_numerator, Curve.SetImage, ...) and class-level configuration are not operations on operands",
         "aliasing between a result and an operand is not flagged (objects are immutable by contract; Copy(), x**1 may return self)",
-        "no NaN in the pool (NaN breaks == by definition)",
+        "no NaN in the history pools (NaN breaks == by definition); NaN elements are covered by the validation workload, which compares bytes",
     ]
     mon = OperandMonitor()
     mon.install()
@@ -371,6 +442,7 @@ def run(ctx):
     from .. import suite_workload
 
     suite_workload.run(ctx, "C13")
+    validation_with_limits(ctx, ctx.rng("limits"), 150 if ctx.tier == "quick" else 3000)
     ctx.notes["operand_monitor"] = {"boundary_calls_observed": mon.n_calls, "operand_snapshots_compared": mon.n_snapshots}
     ctx.inconclusive_if(mon.n_snapshots < 1000, "operand monitor compared fewer than 1000 snapshots")
     ctx.inconclusive_if(probe.BOUNDARY["Scalar.__reduce__"] == 0 and probe.COUNTS["Scalar.__reduce__"] == 0, "pickle path never reached")
